@@ -355,6 +355,10 @@ def judge(vinfo, cells, obs, base, reqmap):
             return True, "excluded:null-result-is-a-legal-reply", ""
     if rc == "timeout":
         return False, "hang", "nano_vm still running after %d s" % HANG_TIMEOUT
+    if any(l.startswith("END ") and l.endswith("linger expired") for l in obs["log"]):
+        # the wedged stand-in only gives up by itself after 20 s, as a safety net of the harness: a VM that was still
+        # waiting then would wait forever for a co-process that never exits - it has to terminate it (SIGTERM)
+        return False, "hang", "nano_vm kept waiting for a wedged co-process until the stand-in gave up by itself after 20 s (it never signalled it)"
     san = [m.decode() for m in SAN_MARKS if m in err]
     if san:
         kind = "sanitizer"
